@@ -844,4 +844,31 @@ theorem alias_accepted (tok : Nat) (W : World) (m : Msg) (rest : List Msg)
   simp [call, body, retryLoop, invoke, invokeOn, deliver, h, Kind.retried, Kind.isOneway, Ev.reachesServer, real, hm, hs]
 
 
+/-- the history of finding K2: call 1's reply is delivered twice … -/
+def dupWorld : World := (call real 0 .normal 1 (init 0) [.ok, .dup]).2.1
+
+theorem dupWorld_facts : dupWorld.pc = .live ⟨[⟨false, 1, .normal, 1, 1⟩], false⟩ ∧ dupWorld.seq = 1 := by decide
+
+/-- … and `n` delivered oneway calls follow; when `1 + n` is a multiple of 2^16 the next call accepts the duplicate -/
+theorem alias_after (n : Nat) (hn : (1 + n) % seqMod = 0) :
+    (call real 0 .normal 7 (onewayN n dupWorld) [.ok]).1 = .returned .normal 1 := by
+  have hl := onewayN_live n dupWorld _ dupWorld_facts.1 (by rw [dupWorld_facts.2]; decide)
+  refine alias_accepted 7 (onewayN n dupWorld) ⟨false, 1, .normal, 1, 1⟩ [] hl.1 rfl ?_
+  show 1 = ((onewayN n dupWorld).seq + 1) % seqMod
+  rw [hl.2, dupWorld_facts.2]
+  simp only [seqMod] at hn ⊢
+  omega
+
+/-! ### execution counts -/
+
+theorem execs_replicate (tok m : Nat) (W W' : World) (h : W'.log = List.replicate m tok ++ W.log) :
+    execs tok W' = execs tok W + m := by
+  unfold execs; rw [h, List.count_append, List.count_replicate_self]; omega
+
+theorem execs_other (tok t m : Nat) (W W' : World) (h : W'.log = List.replicate m tok ++ W.log) (ht : t ≠ tok) :
+    execs t W' = execs t W := by
+  unfold execs; rw [h, List.count_append, List.count_replicate]
+  simp [Ne.symm ht]
+
+
 end Pyro.Call
